@@ -111,6 +111,17 @@ func (s *RefreshableFileDataSource) Initialize() error {
 					}
 				}
 				if ev.Op&fsnotify.Remove == fsnotify.Remove {
+					if _, statErr := os.Stat(s.sourceFilePath); statErr == nil {
+						// Another file was renamed over the path (atomic replace): only the old inode is gone.
+						// Keep watching the path and load the new content.
+						_ = s.watcher.Remove(s.sourceFilePath)
+						if e := s.watcher.Add(s.sourceFilePath); e == nil {
+							if err := s.doReadAndUpdate(); err != nil {
+								logging.Error(err, "Fail to execute RefreshableFileDataSource.doReadAndUpdate")
+							}
+							continue
+						}
+					}
 					logging.Warn("[RefreshableFileDataSource] The file source was removed.", "sourceFilePath", s.sourceFilePath)
 					updateErr := s.Handle(nil)
 					if updateErr != nil {
